@@ -35,3 +35,5 @@ _reg("C22")
 _reg("C18")
 _reg("C29")
 _reg("C28")
+_reg("C30")
+_reg("C31")
